@@ -23,8 +23,8 @@ RULE = ("case = (declaration, context); expected entity keys known by constructi
         "non-trivial = every case; distinct by rendered DDL")
 ASSUMPTIONS = ["extra keys in an entity are tolerated; the named keys must match exactly"]
 
-NAMES = ["mood", "Mood", '"Dq"', "`Bt`", "[Br]", "ARRAY_T", "my_ARRAY", "schema", "key", "type", "database", "index", "comment", "domain"]
-KWNAMES = NAMES[7:]  # entity names that coincide with grammar keywords (not used as a column TYPE: the statement does not cover that)
+NAMES = ["mood", "Mood", '"Dq"', "`Bt`", "[Br]", "ARRAY_T", "my_ARRAY", "identity_t", "schema", "key", "type", "database", "index", "comment", "domain"]
+KWNAMES = NAMES[8:]  # entity names that coincide with grammar keywords (not used as a column TYPE: the statement does not cover that)
 SCH = [None, "s1", '"S2"']
 
 
